@@ -56,7 +56,7 @@ def _shape(e: ast.AST) -> str:
 def run(w: World, rep: Report):
     rep.rule('C17.R1', 'the Fiat-Shamir challenge of both adapter makers hashes the same term shape as the checker: '
              'an aggregate of nonce point and tweak point, the signer key, the message', floor=3)
-    rep.rule('C17.R2', 'decryption adds the tweak: s = sa + t and nonce RT = R + T', floor=2)
+    rep.rule('C17.R2', 'decryption adds the tweak: it puts exactly RT = R + T (popped R, T derived from popped t) and s = sa + t, computed from the popped operands on every path', floor=3)
     chk = w.handler_for('OP_CHECK_ADAPTER_SIG')
     mk_pub = w.handler_for('OP_MAKE_ADAPTER_SIG_PUBLIC')
     mk_prv = w.handler_for('OP_MAKE_ADAPTER_SIG_PRIVATE')
@@ -98,22 +98,119 @@ def run(w: World, rep: Report):
                    f'({", ".join(ref_shape)}): the adapter it makes cannot pass the adapter check')
         rep.check('C17.R1', f'functions.{mk.name}|challenge-input', ok, line=used[0].lineno, file=REL, why=why,
                   facts={'maker': shape, 'checker': ref_shape})
-    # R2
-    s_ok = rt_ok = False
-    for n in ast.walk(dec.node):
-        if isinstance(n, ast.Call) and (dotted(n.func) or '').endswith('crypto_core_ed25519_scalar_add'):
-            names = sorted(ast.unparse(a) for a in n.args)
-            if names == ['sa', 't']:
-                s_ok = True
-        if isinstance(n, ast.Call) and dotted(n.func) == 'aggregate_points' and n.args and \
-                isinstance(n.args[0], (ast.Tuple, ast.List)):
-            names = sorted(ast.unparse(a) for a in n.args[0].elts)
-            if names == ['R', 'T']:
-                rt_ok = True
+    # R2: what decryption puts, on every path (kinds of the put arguments)
+    cfg = w.cfg(dec)
+    kinds = w.kinds(dec)
+    stack = dec.params[1]
+    puts = cfg.nodes_with_call(lambda c: dotted(c.func) == f'{stack}.put' and len(c.args) == 1)
+
+    def is_pop(k):
+        if k.tag == 'stack_item':
+            return True
+        # a popped scalar, clamped
+        return k.tag == 'call' and k.name == 'clamp_scalar' and len(k.args) >= 1 and \
+            all(x.tag == 'stack_item' for x in k.args[0].leaves())
+
+    def pop_ids(k):
+        if k.tag == 'stack_item':
+            return {id(k.node)}
+        return {id(x.node) for x in k.args[0].leaves()}
+
+    def leaf_kind(l):
+        nm = l.name if l.tag == 'call' else (l.method if l.tag == 'mcall' else '')
+        if (nm or '').endswith('scalar_add') and len(l.args) == 2 and \
+                all(all(is_pop(x) for x in a.leaves()) for a in l.args):
+            pops = set()
+            for a in l.args:
+                for x in a.leaves():
+                    pops |= pop_ids(x)
+            return 's' if len(pops) == 2 else 'bad:the two summands are the same item'
+        if l.tag == 'call' and l.name == 'aggregate_points' and len(l.args) == 1 and l.args[0].tag in ('tuple', 'list') \
+                and len(l.args[0].elts) == 2:
+            roles = []
+            for e in l.args[0].elts:
+                for x in e.leaves():
+                    if is_pop(x):
+                        roles.append('pop')
+                    elif x.tag == 'call' and x.name == 'derive_point_from_scalar' and x.args and \
+                            all(is_pop(y) for y in x.args[0].leaves()):
+                        roles.append('derived')
+                    else:
+                        roles.append(x.tag)
+            return 'RT' if sorted(roles) == ['derived', 'pop'] else f'bad:aggregate of {roles}'
+        return f'bad:{l.tag}' + (f' {kinds.path(l)}' if kinds.path(l) else '')
+    got = []
+    for n, c in puts:
+        ks = [leaf_kind(l) for l in kinds.of(c.args[0], n).leaves()]
+        got.append((n, ks))
+    s_ok = any(ks and all(k == 's' for k in ks) for _, ks in got)
+    rt_ok = any(ks and all(k == 'RT' for k in ks) for _, ks in got)
+    bad = [(n, k) for n, ks in got for k in ks if k.startswith('bad:')]
     rep.check('C17.R2', f'functions.{dec.name}|s=sa+t', s_ok, line=dec.node.lineno, file=REL,
-              why='' if s_ok else 'the decrypted scalar is not sa + t')
+              why='' if s_ok else 'no put of (popped scalar + popped scalar) on every path: the decrypted scalar is not sa + t')
     rep.check('C17.R2', f'functions.{dec.name}|RT=R+T', rt_ok, line=dec.node.lineno, file=REL,
-              why='' if rt_ok else 'the decrypted nonce is not R + T')
+              why='' if rt_ok else 'no put of aggregate(popped R, point derived from popped t) on every path: the decrypted '
+              'nonce is not R + T' + (f' ({bad[0][1][4:]})' if bad else ''))
+    rep.check('C17.R2', f'functions.{dec.name}|puts-only-those', not bad and len(puts) == 2, line=dec.node.lineno, file=REL,
+              why='' if (not bad and len(puts) == 2) else
+              (f'a value put by decryption is {bad[0][1][4:]} on some path (line {bad[0][0].line}): the result must be '
+               f'computed from the popped operands alone' if bad else f'{len(puts)} puts (expected RT and s)'))
+    # R3: the adapter instructions compute from their operands only - they never read the cache
+    rep.rule('C17.R3', 'adapter-signature instructions read nothing from the cache (they only write their documented '
+             'keys): results depend on the popped operands alone', floor=4)
+    for h in (chk, mk_pub, mk_prv, dec):
+        cachep = h.params[2]
+        reads = []
+        for n in ast.walk(h.node):
+            if isinstance(n, ast.Subscript) and isinstance(n.ctx, ast.Load) and isinstance(n.value, ast.Name) and \
+                    n.value.id == cachep:
+                reads.append(n)
+            if isinstance(n, ast.Call) and isinstance(n.func, ast.Attribute) and isinstance(n.func.value, ast.Name) and \
+                    n.func.value.id == cachep and n.func.attr in ('get', 'pop', 'setdefault', 'items', 'values', 'keys', 'copy'):
+                reads.append(n)
+            if isinstance(n, ast.Compare) and any(isinstance(o, (ast.In, ast.NotIn)) for o in n.ops) and \
+                    any(isinstance(c, ast.Name) and c.id == cachep for c in n.comparators):
+                reads.append(n)
+        rep.check('C17.R3', f'functions.{h.name}|no-cache-read', not reads, line=reads[0].lineno if reads else h.node.lineno,
+                  file=REL, why='' if not reads else f'`{ast.unparse(reads[0])[:50]}`: a value left in the cache by an '
+                  f'earlier instruction (another adapter with the same nonce point) flows into the result')
+    # R4: point / scalar aggregation folds every element it is given
+    rep.rule('C17.R4', 'aggregate_points / aggregate_scalars fold every element of their argument (no de-duplication, '
+             'filtering or reordering: P + P is 2P)', floor=2)
+    for name in ('aggregate_points', 'aggregate_scalars'):
+        fi = w.repo.func('functions', name)
+        seq = fi.params[0]
+        why = ''
+        for n in ast.walk(fi.node):
+            if isinstance(n, ast.Assign) and any(isinstance(t, ast.Name) and t.id == seq for t in n.targets):
+                v = n.value
+                good = False
+                if isinstance(v, ast.ListComp) and len(v.generators) == 1 and not v.generators[0].ifs and \
+                        isinstance(v.generators[0].iter, ast.Name) and v.generators[0].iter.id == seq:
+                    good = True
+                if isinstance(v, ast.Call) and isinstance(v.func, ast.Name) and v.func.id in ('list', 'tuple') and \
+                        len(v.args) == 1 and isinstance(v.args[0], ast.Name) and v.args[0].id == seq:
+                    good = True
+                if not good:
+                    why = (f'`{seq} = {ast.unparse(v)[:60]}` (line {n.lineno}) is not an element-wise map of the argument: '
+                           f'elements can be dropped, merged or reordered before the sum')
+        folds = [n for n in ast.walk(fi.node) if isinstance(n, ast.For)]
+        fold_ok = False
+        for lp in folds:
+            it = lp.iter
+            txt = ast.unparse(it).replace(' ', '')
+            body_txt = ''.join(ast.unparse(b) for b in lp.body)
+            if 'add' not in body_txt:
+                continue
+            if txt == f'range(1,len({seq}))' and any(
+                    isinstance(n, ast.Assign) and ast.unparse(n.value).replace(' ', '') == f'{seq}[0]' for n in ast.walk(fi.node)):
+                fold_ok = True
+            if txt == f'{seq}[1:]' and any(
+                    isinstance(n, ast.Assign) and ast.unparse(n.value).replace(' ', '') == f'{seq}[0]' for n in ast.walk(fi.node)):
+                fold_ok = True
+        if not why and not fold_ok:
+            why = f'the summation loop does not run over all of `{seq}` (first element as start, the rest added)'
+        rep.check('C17.R4', f'functions.{name}|folds-every-element', not why, line=fi.node.lineno, file=REL, why=why)
     rep.explanation = (
         'Narrow: decides only a necessary condition of "the adapter passes the adapter check" - that both makers '
         'feed the Fiat-Shamir hash the same term shape as the checker (aggregate of nonce point and tweak point, '
